@@ -49,8 +49,10 @@ def run(ctx):
             tf = os.path.join(ctx.dir, "threads-%s-%s-%d.ndjson" % (be, kind, lam))
             # every other run: the library's first user in the process is a helper thread (key generation + reference) that has exited before the workers start
             helper = "1" if (lam == 128 or be.startswith("nayuki") or kind == "debug") else "0"
+            # storm: eight evaluators released together before every evaluation, a client thread encrypting / decrypting / encoding alongside
+            storm = (25 if kind == "optim" else 6) * (4 if thorough else 1)
             with open(tf, "w") as f:
-                rc, _, err = sh([exe, "--lambda", str(lam), "--threads", threads, "--rounds", str(rounds), "--count", "3", "--seed", str(ctx.seed), "--helper", helper], stdout=f, timeout=3000)
+                rc, _, err = sh([exe, "--lambda", str(lam), "--threads", threads, "--rounds", str(rounds), "--count", "3", "--seed", str(ctx.seed), "--helper", helper, "--storm", str(storm)], stdout=f, timeout=3000)
             if rc != 0:
                 ctx.violation("h_threads died on %s/%s rc=%s %s" % (be, kind, rc, err[-300:]), key="h_threads crash %s %s" % (be, kind), files=[tf])
                 continue
